@@ -930,10 +930,12 @@ c_rule_ldresnearX (OrcCompiler *p, void *user, OrcInstruction *insn)
 
   if (p->target_flags & ORC_TARGET_C_OPCODE &&
       !(insn->flags & ORC_INSN_FLAG_ADDED)) {
-    ORC_ASM_CODE(p,"    var%d = ptr%d[(%s + (offset + i)*%s)>>16];\n",
+    ORC_ASM_CODE(p,"    var%d = ptr%d[((orc_int64)%s + (orc_int64)(offset + i)*%s)>>16];\n",
         insn->dest_args[0], insn->src_args[0], src1, src2);
   } else {
-    ORC_ASM_CODE(p,"    var%d = ptr%d[(%s + i*%s)>>16];\n",
+    /* the 16.16 position passes 2^31 after 32768 elements at unit step:
+     * 64-bit arithmetic, like the emulator and the machine code */
+    ORC_ASM_CODE(p,"    var%d = ptr%d[((orc_int64)%s + (orc_int64)i*%s)>>16];\n",
         insn->dest_args[0], insn->src_args[0], src1, src2);
   }
 }
@@ -950,9 +952,9 @@ c_rule_ldreslinb (OrcCompiler *p, void *user, OrcInstruction *insn)
   ORC_ASM_CODE(p,"    {\n");
   if (p->target_flags & ORC_TARGET_C_OPCODE &&
       !(insn->flags & ORC_INSN_FLAG_ADDED)) {
-    ORC_ASM_CODE(p,"    int tmp = %s + (offset + i) * %s;\n", src1, src2);
+    ORC_ASM_CODE(p,"    orc_int64 tmp = (orc_int64)%s + (orc_int64)(offset + i) * %s;\n", src1, src2);
   } else {
-    ORC_ASM_CODE(p,"    int tmp = %s + i * %s;\n", src1, src2);
+    ORC_ASM_CODE(p,"    orc_int64 tmp = (orc_int64)%s + (orc_int64)i * %s;\n", src1, src2);
   }
   ORC_ASM_CODE(p,"    var%d = ((orc_uint8)ptr%d[tmp>>16] * (256-((tmp>>8)&0xff)) + (orc_uint8)ptr%d[(tmp>>16)+1] * ((tmp>>8)&0xff))>>8;\n",
       insn->dest_args[0], insn->src_args[0], insn->src_args[0]);
@@ -973,9 +975,9 @@ c_rule_ldreslinl (OrcCompiler *p, void *user, OrcInstruction *insn)
   ORC_ASM_CODE(p,"    {\n");
   if (p->target_flags & ORC_TARGET_C_OPCODE &&
       !(insn->flags & ORC_INSN_FLAG_ADDED)) {
-    ORC_ASM_CODE(p,"    int tmp = %s + (offset + i) * %s;\n", src1, src2);
+    ORC_ASM_CODE(p,"    orc_int64 tmp = (orc_int64)%s + (orc_int64)(offset + i) * %s;\n", src1, src2);
   } else {
-    ORC_ASM_CODE(p,"    int tmp = %s + i * %s;\n", src1, src2);
+    ORC_ASM_CODE(p,"    orc_int64 tmp = (orc_int64)%s + (orc_int64)i * %s;\n", src1, src2);
   }
   ORC_ASM_CODE(p,"    orc_union32 a = ptr%d[tmp>>16];\n", insn->src_args[0]);
   ORC_ASM_CODE(p,"    orc_union32 b = ptr%d[(tmp>>16)+1];\n", insn->src_args[0]);
